@@ -87,7 +87,38 @@ def case_strategy():
     from hypothesis import strategies as st
 
     @st.composite
+    def _kworder_case(draw):
+        """the same argument-type combination reached by a direct call and, from inside a method, by a recurse whose
+        keyword arguments are written in another order than the function's entry point lists them"""
+        c0 = draw(st.sampled_from(["CK_under_k0", "Under_K1", "Proxy_K0"]))
+        kwann = draw(st.sampled_from([["custom", "CK_marked"], ["obj"], ["cls", "int"]]))
+        req1 = draw(st.booleans())
+
+        def kw():
+            return [{"name": "k0", "ann": kwann, "opt": False}, {"name": "k1", "ann": ["obj"], "opt": not req1}]
+
+        site = {"fn": draw(st.sampled_from(["recurse", "call_next"])), "npos": 1, "kws": ["k0", "k1"],
+                "kwrev": draw(st.sampled_from([True, True, False])), "star": draw(st.integers(0, 3)) == 0}
+        methods = [{"id": 0, "prio": 0, "sites": [], "pos": [{"name": "a0", "ann": ["custom", c0]}], "kw": kw()},
+                   {"id": 1, "prio": 0, "sites": [], "pos": [{"name": "a0", "ann": ["cls", "int"]}], "kw": kw()},
+                   {"id": 2, "prio": 0, "sites": [site], "pos": [{"name": "a0", "ann": ["cls", "str"]}], "kw": kw()},
+                   {"id": 3, "prio": 0, "sites": [], "pos": [{"name": "a0", "ann": ["obj"]}], "kw": kw()}]
+        kv = {"k0": ["inst", "K1"] if kwann != ["cls", "int"] else ["int", 1], "k1": ["int", 2]}
+        tgt = ["inst", "K1"]
+        pool = [{"args": [["str", "s"]], "kw": kv, "script": [["site", 0, [["int", 1]], kv]]},
+                {"args": [tgt], "kw": kv, "script": []},
+                {"args": [["str", "s"]], "kw": kv, "script": [["site", 0, [tgt], kv]]},
+                {"args": [["int", 1]], "kw": kv, "script": []}]
+        ops = [["call", 0], ["call", 1], ["call", 2], ["call", 2]]
+        for _ in range(draw(st.integers(0, 6))):
+            ops.append(["call", draw(st.integers(0, 3))] if draw(st.integers(0, 3)) else [draw(st.sampled_from(["noop", "derive"])), 0])
+        return {"methods": methods, "host": draw(st.sampled_from(["func", "attr", "mc"])), "pool": pool, "ops": ops,
+                "noreplace": False}
+
+    @st.composite
     def _case(draw):
+        if draw(st.integers(0, 7)) == 0:
+            return draw(_kworder_case())
         cust = st.sampled_from([["custom", n] for n in CUSTOM])
         plain = st.sampled_from([["cls", n] for n in KN] + [["obj"], ["cls", "int"], ["cls", "str"]])
         comb = st.tuples(st.sampled_from(["union", "inter"]), st.one_of(cust, plain), plain).map(
@@ -134,6 +165,7 @@ def run_case(spec):
     try:
         registered = [m["id"] for m in spec["methods"]]
         warmed = {}
+        seen_combos = set()
         consulted_in_warmup = 0
         nested_repeat = False
         for step, op in enumerate(spec["ops"]):
@@ -146,6 +178,25 @@ def run_case(spec):
                 out = prog.call(args, kws, script=call.get("script"))
                 delta = counter.n - before
                 trace = prog.H.trace()
+                # every argument-type combination this call dispatched on: its own and those of its delegations
+                def combo(a, k):
+                    kk = lambda v: v if isinstance(v, type) else type(v)  # noqa: E731
+                    return (tuple(kk(v) for v in a), tuple(sorted((n, kk(v)) for n, v in k.items())))
+
+                combos = {combo(args, kws)} | {combo(p_, k_) for (_, _, _, p_, k_) in prog.H.delegs}
+                if idx not in warmed and out.kind == "ok" and combos <= seen_combos and delta:
+                    who = {k: v - by_before.get(k, 0) for k, v in counter.by.items() if v != by_before.get(k, 0)}
+                    res.label("all-combinations-warm-via-other-calls")
+                    res.fail(
+                        f"step {step}: call #{idx} args={call['args']} kw={call['kw']} script={call.get('script')} only "
+                        f"dispatches on argument-type combinations that earlier calls had already resolved since the last "
+                        f"change (possibly with the keywords written in another order), yet it consulted {delta} hook(s): "
+                        f"{who}; trace={trace} | ops {spec['ops'][:step + 1]}",
+                        "C20:warm-combination-resolved-again",
+                    )
+                    break
+                if out.kind == "ok":
+                    seen_combos |= combos
                 if idx in warmed:
                     res.label("repeat")
                     if len(trace) >= 2:
@@ -178,6 +229,7 @@ def run_case(spec):
                     break
                 registered.remove(mid)
                 warmed.clear()
+                seen_combos.clear()
                 res.label("op:unreg")
             elif mutable and op[0] == "derive":
                 # build and use a variant: that locks this function but does not change its methods
@@ -218,6 +270,7 @@ def run_case(spec):
                     break
                 registered.append(mid)
                 warmed.clear()
+                seen_combos.clear()
                 res.label("op:reg")
         res.nontrivial = consulted_in_warmup > 0 and nested_repeat
         if consulted_in_warmup:
